@@ -204,3 +204,63 @@ def classify_driver(res, prop):
     for q in out["direct"]:
         if prop in qprops[q["query"]["q"]]:
             res.violation({"property": prop, "module": "trace-driver", "why": "query raised %s / modified the tree: %s" % (q["obs"].get("raised"), q["changed"]), "event": q})
+
+
+# ------------------------------------------------------------------------------------- link / copy histories (C19, C20)
+_lmemo = {}
+
+
+def links_plan(tier):
+    return dict(histories=32, steps=120) if tier == "quick" else dict(histories=128, steps=300)
+
+
+def links_verdicts(tier, repo=None):
+    from . import driver_links
+
+    repo = repo or core.repo_path()
+    if (tier, repo) in _lmemo:
+        return _lmemo[(tier, repo)]
+    plan = links_plan(tier)
+    base = core.seed() * 1000 + 500000
+    jobs = [(base + i, 1 + i % 3, plan["steps"]) for i in range(plan["histories"])]
+    with core.pool(driver_links.worker_init, (repo,), min(16, len(jobs))) as p:
+        hists = core.pmap(p, driver_links.history, jobs)
+    attr = [e for h in hists for e in h["attr"]]
+    copies = [e for h in hists for e in h["copy"]]
+    consts = {"Nil": "Nil", "NonNode": "NonNode", "MaxStack": 12}
+    averd, astats = judge.run_judge("TraceAttrs", attr, consts, tag="trace-links-attrs") if attr else ({}, None)
+    judged = [e for e in copies if "raised" not in e]
+    cverd, cstats = judge.run_judge("TraceClone", [{k: e[k] for k in ("id", "pre", "post", "after", "n", "result", "bij", "root", "mut", "leaf", "extra")}
+                                                   for e in judged], consts, tag="trace-links-copies") if judged else ({}, None)
+    out = {"plan": plan, "histories": len(hists), "hung": sum(1 for h in hists if h.get("hung")), "attr": attr, "copies": copies,
+           "averd": averd, "cverd": cverd, "tlc": [s for s in (astats, cstats) if s]}
+    _lmemo[(tier, repo)] = out
+    return out
+
+
+def classify_links(res, prop):
+    out = links_verdicts(res.tier)
+    for s in out["tlc"]:
+        res.add_tlc(dict(s, tag=s.get("tag", "trace-links")), transitions=True)
+    acts = {}
+    for e in out["attr"]:
+        acts[e["act"]] = acts.get(e["act"], 0) + 1
+    res.extra["link_histories"] = {"histories": out["histories"], "steps_per_history": out["plan"]["steps"], "attribute_and_structure_events": acts,
+                                   "copy_events": len(out["copies"]), "histories_cut_short_by_the_time_limit": out["hung"]}
+    if prop == "C20":
+        res.trace_events += len(out["attr"])
+        byid = {e["id"]: e for e in out["attr"]}
+        for i, v in out["averd"].items():
+            if "C20" in v:
+                e = byid[i]
+                res.violation({"property": "C20", "module": "link-history", "why": "recorded history: %s on %s violates C20 (judged by TLC)" % (e["act"], e["n"]), "event": e})
+    if prop == "C19":
+        res.trace_events += len(out["copies"])
+        byid = {e["id"]: e for e in out["copies"]}
+        for e in out["copies"]:
+            if "raised" in e:
+                res.violation({"property": "C19", "module": "link-history", "why": "recorded history: %s of %s: %s" % (e["how"], e["n"], e["raised"]), "event": e})
+        for i, v in out["cverd"].items():
+            if "C19" in v:
+                e = byid[i]
+                res.violation({"property": "C19", "module": "link-history", "why": "recorded history: %s of %s is not an independent, consistent, isomorphic copy (judged by TLC)" % (e["how"], e["n"]), "event": e})
